@@ -116,7 +116,7 @@ impl ZoneStore {
         trace!("store resolve");
 
         // Check cache first (short lock scope)
-        {
+        let invalidations = {
             let mut cache = self.cache.lock().await;
             if let Some(rset) = cache.resolve(pubkey, name, record_type) {
                 debug!(
@@ -125,7 +125,8 @@ impl ZoneStore {
                 );
                 return Ok(Some(rset));
             }
-        }
+            cache.invalidations
+        };
 
         #[cfg(feature = "verif-hooks")]
         iroh_base::verif_hooks::point_async("zone:resolve:after_cache_miss", "").await;
@@ -136,7 +137,15 @@ impl ZoneStore {
             #[cfg(feature = "verif-hooks")]
             iroh_base::verif_hooks::point_async("zone:resolve:after_store_get", "").await;
             let mut cache = self.cache.lock().await;
-            let result = cache.insert_and_resolve(&packet, name, record_type);
+            let result = if cache.invalidations == invalidations {
+                cache.insert_and_resolve(&packet, name, record_type)
+            } else {
+                // A publish invalidated the cache after it was checked above, so `packet` may
+                // have been read before that publish: answer from it, but do not cache it.
+                CachedZone::from_signed_packet(&packet)
+                    .anyerr()
+                    .map(|zone| zone.resolve(name, record_type))
+            };
             return match result {
                 Ok(Some(rset)) => {
                     debug!(
@@ -231,6 +240,9 @@ struct ZoneCache {
     dht_cache: TtlCache<PublicKeyBytes, CachedZone>,
     #[debug("metrics")]
     metrics: Arc<Metrics>,
+    /// Number of invalidations by publishes so far. A lookup that finds this changed between
+    /// its cache miss and its cache fill must not cache the packet it read in between.
+    invalidations: u64,
 }
 
 impl ZoneCache {
@@ -241,6 +253,7 @@ impl ZoneCache {
             cache,
             dht_cache,
             metrics,
+            invalidations: 0,
         }
     }
 
@@ -310,6 +323,7 @@ impl ZoneCache {
     }
 
     fn remove(&mut self, pubkey: &PublicKeyBytes) {
+        self.invalidations += 1;
         self.cache.pop(pubkey);
         self.dht_cache.remove(pubkey);
         self.metrics.cache_zones.set(self.cache.len() as i64);
